@@ -235,6 +235,10 @@ class ExcelCompiler:
                 # no folding: a folded plain scalar does not read back as
                 # written (two spaces or a tab at the fold)
                 ymlo.width = 2 ** 31
+                if hasattr(extra_data, 'fa'):
+                    # data read from a json file remembers its flow style,
+                    # in which plain text such as '?x' cannot be written
+                    extra_data.fa.set_block_style()
                 ymlo.dump(extra_data, f)
         else:
             with open(filename, 'w') as f:
